@@ -151,6 +151,20 @@ def gen_cases(seed, tier):
                 c['desc'].update(base=s, fault=f, at=i)
                 cases.append(c)
                 made += 1
+    # every fault at EVERY token boundary of a fixed set of small well-formed documents (also between a macro and its
+    # arguments, between two arguments, inside optional arguments)
+    small = {'default': ['\\textbf{a}', '\\frac{a}{b}', '$\\mathbf{v}$', '\\sqrt[n]{x}', '\\begin{center}a\\end{center}', '{\\emph{x}}',
+                         '\\item[a] b', 'a~b', '\\section*{t}', '\\textbf x', '\\[\\hat{a}\\]', '\\begin{tabular}{c}a\\end{tabular}',
+                         '\\texttt{\\textit{q}} r'],
+             'custom': ['\\ma*[o]{m}', '\\mb{a}[o]', '\\mc+{x}', '\\md(a)<b>', '!![o]{m}', '\\begin{ea}[o]{m}b\\end{ea}', '\\mt{a}', '\\m2{a}{b}']}
+    for ctx in ('default', 'custom'):
+        for b in small[ctx]:
+            sites = _fault_sites(b, ctx)
+            for i in (sites or []):
+                for f in FAULTS:
+                    c = PC.mk_case(ctx, b[:i] + f + b[i:], False, 'fault')
+                    c['desc'].update(base=b, fault=f, at=i)
+                    cases.append(c)
     cases += PC.state_stream(random.Random(seed + 78), 400 if quick else 6000, modes=(False,))
     # a context whose macros take comma-separated list arguments (real code only: that parser is outside the model)
     for s in docgen.exhaustive(docgen.SYM_COMMASEP, 3 if quick else 4):
